@@ -446,6 +446,45 @@ RAW_EXEMPT = {
 }
 
 
+def rule_everyblock(ctx, rep, rid="R-C08-everyblock"):
+    """A text-rewriting step of the pre-processor finds its region by searching for a marker.  A file holds as many such regions as it has
+    elements (OSCAT writes one description block per function block): a search that runs once rewrites the first region and leaves the
+    others as source text - one file with two blocks is a syntax error where the same two elements in two files check OK.  So in the
+    functions of parser::preprocessor every search for a constant marker (find / rfind with a constant needle) lies on a cycle of the
+    control-flow graph (it is repeated until nothing is found), or the function uses a whole-text operation (match_indices, split, replace)."""
+    r = rep.rule(rid, "every marker search of a pre-processing step is repeated until nothing is found (the search lies in a loop, or a whole-text operation is used): "
+                      "every marked region of a file is rewritten, not only the first", floor=1, floor_what="marker searches in parser::preprocessor")
+    n = 0
+    for b in sorted(ctx.prog.bodies.values(), key=lambda x: x.id):
+        if b.f["crate"] != "ironplc_parser" or "::preprocessor::" not in norm(b.id) or "::test" in norm(b.id):
+            continue
+        whole = [c for c in b.calls() if (c.callee or c.u or "").split("::")[-1] in ("match_indices", "rmatch_indices", "split", "replace", "replacen", "split_inclusive")]
+        k = 0
+        for c in sorted(b.calls(), key=lambda c: (c.loc[0], c.loc[1])):
+            if (c.callee or c.u or "").split("::")[-1] not in ("find", "rfind") or len(c.args) < 2 or "str" not in (c.callee or ""):
+                continue
+            needle = b.const_str(c.args[1])
+            if needle is None:
+                # a needle kept in a variable (`let start_key = "..";`)
+                p_ = op_place(c.args[1])
+                d_ = b.single_def(b.root(p_)[0]) if p_ is not None else None
+                if d_ and d_[0] == "stmt" and d_[3][0] == "use":
+                    needle = b.const_str(d_[3][1])
+            if needle is None:
+                continue
+            n += 1
+            k += 1
+            inst = "%s|find %r#%d" % (norm(b.id).split("::")[-1], needle[:30], k)
+            in_loop = c.bb in {x for s_ in b.succ(c.bb) for x in b.reachable(s_)}
+            if in_loop or whole:
+                r.ok(inst, loc_str(b.f, c.loc), "repeated until nothing is found" if in_loop else "whole-text operation")
+            else:
+                r.finding(inst + "|searched-once", loc_str(b.f, c.loc), "the marker is searched for once: only the first marked region of a file is rewritten, the next one is read as source text "
+                          "(two OSCAT description blocks in one file are a syntax error; the same elements in two files are fine)")
+    if not n:
+        rep.error(rid, "no marker search found in parser::preprocessor (anchor moved)")
+
+
 def rule_rawtext(ctx, rep, rid="R-C08-rawtext"):
     """Keywords are case-insensitive because the *lexer* says so.  Code that looks for a keyword in text by itself - `source.contains("END_IF")`,
     `text.starts_with("VAR")` - bypasses the lexer and is case-sensitive (and blind to comments and strings).  Every search of a constant
@@ -661,6 +700,7 @@ def run(ctx, rep):
     rule_id(ctx, rep)
     rule_keys(ctx, rep)
     rule_nametext(ctx, rep)
+    rule_everyblock(ctx, rep)
     rule_pipe(ctx, rep)
     rule_rawtext(ctx, rep)
     rule_prestep(ctx, rep)
